@@ -144,15 +144,21 @@ class Map(Evaluatable[Iterable[Tuple[Dict[str, JSON], A]]]):
     def _iter(
         self, options: Options
     ) -> Evaluatable[Iterable[Tuple[Dict[str, JSON], A]]]:
+        combinations = self._iterate_over_options(options)
+        try:
+            option_sets = [
+                self._create_option_set(*option_tuples) for option_tuples in combinations
+            ]
+        except (TypeError, AttributeError) as e:  # conflicting keys, e.g. "A" and "A.X"
+            raise EvaluationError("Could not build the Map option sets", self) from e
+
         return Iter(
             *(
                 Iter(
                     Iter(*option_tuples).apply(dict),  # type: ignore
-                    WithOptions(  # type: ignore
-                        self.evaluatable, self._create_option_set(*option_tuples)
-                    ),
+                    WithOptions(self.evaluatable, option_set),  # type: ignore
                 ).apply(lambda x: tuple(x))
-                for option_tuples in self._iterate_over_options(options)
+                for option_tuples, option_set in zip(combinations, option_sets)
             )
         )
 
